@@ -236,7 +236,8 @@ class SharedCases(fw.CoqCases):
         t_end = time.time() + self.timeout
         while idx < len(paths) or running:
             while idx < len(paths) and len(running) < fw.NPROC:
-                pr = subprocess.Popen(["coqc"] + fw.COQ_FLAGS + [paths[idx]], cwd=d, stdout=subprocess.PIPE,
+                pr = subprocess.Popen(["bash", "-c", "ulimit -s unlimited 2>/dev/null; exec coqc \"$@\"", "coqc", "-noglob"]
+                                      + fw.COQ_FLAGS + [paths[idx]], cwd=d, stdout=subprocess.PIPE,
                                       stderr=subprocess.STDOUT, text=True, errors="replace")
                 running.append((idx, pr))
                 idx += 1
@@ -1044,6 +1045,12 @@ def run(ctx):
         return
     run_codec_tie(ctx)
     run_struct_tie(ctx, gt)
+    if gt != (True, False, True) and not any(v["key"].startswith("text-output-") for v in ctx.violations) \
+            and not ctx.known_hits:
+        # the instance obligation gentab_ok failed but no structure showed it on the C++ side
+        ctx.violation("gen-table", "regenerated text_output table %s (no attribute, Skip, Emit -> write clause?) is not the documented "
+                      "(True, False, True); emit_present / skip_absent do not apply" % (gt,),
+                      dict(kind="table", theorem="emit_present / skip_absent (hypothesis gentab_ok)", table=list(gt)), found_input=False)
     _tick(ctx, "done")
 
 
